@@ -354,6 +354,22 @@ func init() {
 		p.ghost["__nodeadlock"] = p.argStr(args[0])
 		return nil
 	})
+	reg(v("vTime"), func(p *Path, _ *frame, _ *ssa.Function, args []Value) Value {
+		name := p.argStr(args[0])
+		k := p.varCount[name]
+		t := p.freshVar(name, 64)
+		p.addInput(fmt.Sprintf("%s#%d", name, k), "i64", t)
+		p.assume(p.ctx.Cmp(OpSlt, p.ctx.Const(64, 0), t))
+		p.assume(p.ctx.Cmp(OpSlt, t, p.ctx.Const(64, 1<<61)))
+		return timeVal(p, t)
+	})
+	reg(v("vTimeNs"), func(p *Path, _ *frame, _ *ssa.Function, args []Value) Value { return timeNs(args[0]) })
+	reg(v("vLastNow"), func(p *Path, _ *frame, _ *ssa.Function, args []Value) Value {
+		if p.lastNow == nil {
+			return p.ctx.Const(64, 0)
+		}
+		return p.lastNow
+	})
 	reg(v("vTier"), func(p *Path, _ *frame, _ *ssa.Function, args []Value) Value {
 		return p.ctx.Const(64, uint64(p.eng.Opt.Tier))
 	})
